@@ -14,6 +14,7 @@ from vlib import coq
 from vlib.framework import Suite
 from . import shell_common as sc
 from . import C01
+from . import chan_common as cc
 
 PROP = "C11"
 TRUSTED = [
@@ -225,4 +226,183 @@ class FileE2E(Suite):
             yield {"ash": (i // 3) % 2 == 0, "chunk": 4096, "ops": text_ops[i:i + 3]}
 
 
-SUITES = [B64Suite(), B64DecSuite(), FileE2E()]
+
+
+# ------------------------------------------------------------------ write_bytes / read_bytes over the simulated console
+import re as _re                     # noqa: E402
+
+
+class FileSim(C01.LinuxSim):
+    """a remote with files; understands the command lines of write_bytes / read_bytes"""
+
+    def __init__(self, fail_tee=False):
+        super().__init__()
+        self.files = {}
+        self.mode = None              # ("tee64", path, [lines]) while `base64 -d - | tee` runs in the foreground
+        self.fail_tee = fail_tee
+
+    def react(self, line: bytes):
+        echo = C01.tty_echo_ref(line + b"\r", self.echoctl)
+        if self.mode is not None:
+            self.mode[2].append(line)
+            return echo, b"", b""
+        m = _re.fullmatch(rb"base64 -d - \| tee (.+) >/dev/null", line, _re.S)
+        if m:
+            path = C01.sh_ref(m.group(1))[0]
+            self.mode = ("tee64", path, [])
+            if self.fail_tee:
+                return echo, b"tee: " + path + b": Permission denied\r\n", b""
+            return echo, b"", b""
+        m = _re.fullmatch(rb"base64 (.+)", line, _re.S)
+        if m:
+            path = C01.sh_ref(m.group(1))[0]
+            if path in self.files:
+                enc = base64.b64encode(self.files[path])
+                out = b"".join(enc[i:i + 76] + b"\r\n" for i in range(0, len(enc), 76))
+                self.status = 0
+            else:
+                out = b"base64: " + path + b": No such file or directory\r\n"
+                self.status = 1
+            return echo, out, self.ps1
+        out = self.execute(line).replace(b"\n", b"\r\n")
+        return echo, out, self.ps1
+
+    def eof(self):
+        """^D at the start of a line: the foreground pipeline ends"""
+        _, path, lines = self.mode
+        self.mode = None
+        if self.fail_tee:
+            self.status = 1
+        else:
+            self.files[path] = base64.b64decode(b"".join(lines))
+            self.status = 0
+        return b"", b"", self.ps1
+
+
+def run_pathio(case):
+    ash = case["ash"]
+    rng = random.Random(case["seed"])
+    data = bytes.fromhex(case["data"])
+    clock = sc.VirtualClock()
+    sim = FileSim(fail_tee=case.get("fail_tee", False))
+    io = sc.StageIO([], [], clock, initial=[[0, b"$ "]])
+    io.reactor = lambda line: b"".join(C01.LinuxSim.react(sim, line))
+    wres, rres = None, None
+    wst, rst = [], []
+
+    def stage_of(parts):
+        echo, out, pr = parts
+        d = echo + out + pr
+        pieces = sc.fragment(rng, d, len(echo), pr, one_byte=(case["frag"] == "bytes"), maxpieces=(1 if case["frag"] == "whole" else 5)) if pr else \
+            ([d[i:i + 1] for i in range(len(d))] if case["frag"] == "bytes" else cc.rand_split(rng, d, 1 if case["frag"] == "whole" else 4))
+        return sc.timed_stage(rng, [bytes(x) for x in pieces], maxgap=case.get("maxgap", 0))
+
+    with sc.patched_clock(clock), sc.quiet_log():
+        with C01.mk_machine(io, ash)() as m:
+            io.reactor = None
+            base_written = len(io.written)
+            io.pend = []
+            path = linux.Path(m, case["path"])
+            wcmd = m.escape("base64", "-d", "-", linux.Pipe, "tee", path, linux.RedirStdout(m.fsroot / "/dev/null"))
+            rcmd = m.escape("base64", path)
+            # the console's reactions, in the order the lines are sent
+            wst.append(stage_of(sim.react(wcmd.encode())))
+            tags = [wcmd.encode()]
+            enc = base64.b64encode(data)
+            for i in range(0, len(enc), 76):
+                wst.append(stage_of(sim.react(enc[i:i + 76])))
+                tags.append(enc[i:i + 76])
+            wst.append(stage_of(sim.eof()))
+            tags.append(b"\x04")
+            wst.append(stage_of(sim.react(b"echo $?")))
+            tags.append(b"echo $?")
+            file_after_write = sim.files.get(case["path"].encode())
+            io.stages = [{"tag": tg, "st": [[t, bytes(d)] for t, d in st]} for tg, st in zip(tags, wst)]
+            io.armed = True
+            try:
+                wres = [0, path.write_bytes(data)]
+            except tbot.error.CommandFailure:
+                wres = [1]
+            except linux.CommandEndedException:
+                wres = [10]
+            except Exception as e:  # noqa
+                wres = [2, cc._exc_obs(e)]
+            for ln in (rcmd.encode(), b"echo $?"):
+                rst.append(stage_of(sim.react(ln)))
+            io.stages = [[[t, bytes(d)] for t, d in st] for st in rst]
+            io.armed = True
+            try:
+                rres = [0, path.read_bytes()]
+            except tbot.error.CommandFailure:
+                rres = [1]
+            except Exception as e:  # noqa
+                rres = [2, [2, sc.exc_kind(e)]]
+            written = bytes(io.written[base_written:])
+            unread = io.unread()
+            io.pend = []
+    case["_wcmd"], case["_rcmd"] = wcmd, rcmd
+    case["_wst"] = [[[t, d.hex()] for t, d in st] for st in wst]
+    case["_rst"] = [[[t, d.hex()] for t, d in st] for st in rst]
+    return [wres, rres, written, unread, None if file_after_write is None else file_after_write.hex()]
+
+
+class PathSimSuite(Suite):
+    """Path.write_bytes / read_bytes over the staged console: the real methods against coq/PathIO.v"""
+    name = "pathsim"
+    imports = ["Channel", "ChannelCorr", "Hush", "Session", "Sh", "Base64", "Proxy", "PathIO"]
+    model_fn = "pathio_model"
+    shard = 60
+
+    def run(self, case):
+        return run_pathio(case)
+
+    def coq_input(self, case):
+        un = lambda sts: [[[t, bytes.fromhex(d)] for t, d in st] for st in sts]   # noqa: E731
+        w = un(case["_wst"])
+        return (f"({coq.boolean(case['ash'])}, {sc.codepoints(case['_wcmd'])}, {coq.nlist(bytes.fromhex(case['data']))}, "
+                f"({sc.stage_coq(w[0])}, {sc.stages_coq(w[1:-2])}, {sc.stage_coq(w[-2])}, {sc.stage_coq(w[-1])}), "
+                f"{sc.codepoints(case['_rcmd'])}, {sc.stages_coq(un(case['_rst']))})")
+
+    def obs_term(self, case, obs):
+        return coq.V(obs[:4])
+
+    def oracle(self, case, obs):
+        wres, rres, written, unread, filehex = obs
+        data = bytes.fromhex(case["data"])
+        fails = []
+        if case.get("fail_tee"):
+            if wres != [1]:
+                fails.append(f"tee failed on the remote but write_bytes gave {wres!r} instead of CommandFailure")
+            return fails
+        if wres != [0, len(data)]:
+            fails.append(f"write_bytes of {len(data)} bytes returned {wres!r}")
+        if filehex != data.hex():
+            fails.append(f"after write_bytes({data!r:.80}) the remote file holds {None if filehex is None else bytes.fromhex(filehex)!r:.80}")
+        if rres != [0, data]:
+            fails.append(f"read_bytes returned {rres!r:.120} for {data!r:.80}")
+        if unread:
+            fails.append(f"console output left unread: {unread!r:.80}")
+        return fails
+
+    def nontrivial(self, case, obs):
+        return len(case["data"]) >= 114 or case["frag"] != "whole"
+
+    def klass(self, case, obs):
+        return ("ash:" if case["ash"] else "bash:") + case["frag"]
+
+    def gen(self, tier, rng):
+        sizes = [0, 1, 2, 3, 56, 57, 58, 113, 114, 115, 171, 300, 1000]
+        for i, n in enumerate(sizes):
+            for frag in ("whole", "random", "bytes"):
+                yield {"ash": i % 2 == 0, "data": bytes(rng.randrange(256) for _ in range(n)).hex(), "path": rng.choice(["/tmp/f", "/tmp/x y/f", "/data/a'b"]),
+                       "seed": rng.randrange(1 << 30), "frag": frag, "maxgap": rng.choice([0, 64])}
+        yield {"ash": False, "data": bytes(range(256)).hex(), "path": "/tmp/all", "seed": 5, "frag": "random", "maxgap": 0}
+        yield {"ash": True, "data": b"abc".hex(), "path": "/ro/f", "seed": 6, "frag": "random", "maxgap": 0, "fail_tee": True}
+        yield {"ash": False, "data": (b"x" * 200).hex(), "path": "/ro/g", "seed": 7, "frag": "bytes", "maxgap": 0, "fail_tee": True}
+        for _ in range(120 if tier == "quick" else 1500):
+            yield {"ash": rng.random() < 0.5, "data": bytes(rng.randrange(256) for _ in range(rng.randint(0, 400))).hex(),
+                   "path": "/tmp/r", "seed": rng.randrange(1 << 30), "frag": rng.choice(["whole", "random", "bytes"]), "maxgap": rng.choice([0, 0, 128])}
+
+
+SUITES = [B64Suite(), B64DecSuite(), PathSimSuite(), FileE2E()]
+
